@@ -148,12 +148,13 @@ def spec_scripts(tier, wd, seed):
     os.makedirs(d, exist_ok=True)
     shutil.copy(os.path.join(common.SPEC, "Control.tla"), d)
     nsess, maxlines = (2, 4)      # (2 sessions x 5 lines over 8 line classes is already > 50 M states)
+    samplek = 15 if tier == "thorough" else 150     # 1.8 M behaviours in these bounds; every k-th (by content hash) is printed
     with open(os.path.join(d, "MCS.tla"), "w") as f:
         f.write('---- MODULE MCS ----\nEXTENDS Control\nSessDef == 0..%d\nClassesDef == {"query", "mutate", "await", "help", "unknown", "badarg", "convfail", "blank"}\n'
-                'TransportsDef == {"mem"}\n====\n' % (nsess - 1))
+                'TransportsDef == {"mem"}\nPrintSome == PrintLeafSampled(%d)\n====\n' % (nsess - 1, samplek))
     with open(os.path.join(d, "MCS.cfg"), "w") as f:
         f.write("SPECIFICATION Spec\nCONSTANTS\n  Sess <- SessDef\n  Classes <- ClassesDef\n  MaxLines = %d\n  Transports <- TransportsDef\n"
-                "VIEW View\nINVARIANT RepliesAccounted\nINVARIANT AllAnswered\nINVARIANT DoneMeansGone\nINVARIANT PrintLeaf\n"
+                "VIEW View\nINVARIANT RepliesAccounted\nINVARIANT AllAnswered\nINVARIANT DoneMeansGone\nINVARIANT PrintSome\n"
                 "PROPERTY MalformedNoEffect\nPROPERTY PoolUntouched\nCHECK_DEADLOCK FALSE\n" % maxlines)
     t0 = time.time()
     p = subprocess.run(["tlc", "-workers", str(common.NCPU), "-metadir", os.path.join(d, "meta"), "-noGenerateSpecTE", "-config", "MCS.cfg", "MCS.tla"],
@@ -166,7 +167,7 @@ def spec_scripts(tier, wd, seed):
     hists = common.parse_printed_json(out, "SCRIPT")
     st = common.tlc_stats(out)
     info = {"config": "control_sessions", "sessions": nsess, "max_lines": maxlines, "states": st[0], "transitions": st[1],
-            "behaviours_printed": len(hists), "wall_s": round(time.time() - t0, 1)}
+            "behaviours_printed": len(hists), "behaviours_sampled_one_in": samplek, "wall_s": round(time.time() - t0, 1)}
     # liveness of the lifecycle part under fairness (small instance, no VIEW)
     with open(os.path.join(d, "MCL.tla"), "w") as f:
         f.write('---- MODULE MCL ----\nEXTENDS Control\nSessDef == 0..1\nClassesDef == {"query", "await", "forever", "blank"}\nTransportsDef == {"unix"}\n====\n')
